@@ -5,7 +5,7 @@ use emit::span::{SpanCtxt, SpanId, TraceId};
 use emit::Frame;
 use emit_traceparent::{TraceFlags, Traceparent, Tracestate};
 
-use crate::exec::{alternating, block_on, join, yield_now, BoxFut};
+use crate::exec::{alternating, block_on, catch_fut, catch_planned, join, planned_panic, yield_now, BoxFut};
 use crate::rt::{Log, Rt, Sc, Tp, L};
 use crate::tree::{u128_of, Carry, Form, Header, PItem, PNode, PushVia};
 
@@ -61,9 +61,11 @@ fn span_manual_call(env: &Env, node: &PNode) {
 }
 
 fn span_manual_enter(env: &Env, node: &PNode) {
-    let (mut guard, mut frame) = emit::new_span!(rt: env.rt, mdl: emit::Path::new_raw(node.mdl), "manual_enter");
+    let (guard, mut frame) = emit::new_span!(rt: env.rt, mdl: emit::Path::new_raw(node.mdl), "manual_enter");
     {
         let _entered = frame.enter();
+        // declared after the enter guard: an unwind drops (= completes) it while the frame is still entered
+        let mut guard = guard;
         guard.start();
         body_start(env, node);
         run_sync(env, &node.items);
@@ -121,11 +123,13 @@ fn span_handoff_call(env: &Env, node: &PNode) {
     let r = std::thread::scope(|s| {
         s.spawn(move || {
             vcore::catch(move || {
-                frame.call(move || {
-                    guard.start();
-                    body_start(env, node);
-                    run_sync(env, &node.items);
-                    guard.complete();
+                let _ = catch_planned(|| {
+                    frame.call(move || {
+                        guard.start();
+                        body_start(env, node);
+                        run_sync(env, &node.items);
+                        guard.complete();
+                    })
                 });
                 far_end(env, node);
             })
@@ -146,7 +150,7 @@ fn span_handoff_in_fn(env: &Env, node: &PNode) {
     let r = std::thread::scope(|s| {
         s.spawn(move || {
             vcore::catch(move || {
-                on_thread();
+                let _ = catch_planned(on_thread);
                 far_end(env, node);
             })
         })
@@ -160,12 +164,12 @@ fn span_handoff_enter_back(env: &Env, node: &PNode) {
     let r = std::thread::scope(|s| {
         s.spawn(move || {
             let r = vcore::catch(|| {
-                {
+                let _ = catch_planned(|| {
                     let _entered = frame.enter();
                     guard.start();
                     body_start(env, node);
                     run_sync(env, &node.items);
-                }
+                });
                 far_end(env, node);
             });
             (r, guard, frame)
@@ -273,7 +277,12 @@ pub fn run_sync(env: &Env, items: &[PItem]) {
             PItem::Event { id } => event(env, *id),
             PItem::Check { id } => check(env, *id),
             PItem::Yield => {}
-            PItem::Push { id, header, via, items, pre, post } => {
+            PItem::Panic => planned_panic(),
+            PItem::Catch { items, post } => {
+                let _ = catch_planned(|| run_sync(env, items));
+                check(env, *post);
+            }
+            PItem::Push { id, header, via, items, pre, post, .. } => {
                 let frame = push_header(env, *id, header, *via);
                 frame.call(|| {
                     check(env, *pre);
@@ -309,7 +318,12 @@ pub fn run_async<'a>(env: &'a Env<'a>, items: &'a [PItem]) -> BoxFut<'a> {
                 PItem::Event { id } => event(env, *id),
                 PItem::Check { id } => check(env, *id),
                 PItem::Yield => yield_now().await,
-                PItem::Push { id, header, via, items, pre, post } => {
+                PItem::Panic => planned_panic(),
+                PItem::Catch { items, post } => {
+                    catch_fut(run_async(env, items)).await;
+                    check(env, *post);
+                }
+                PItem::Push { id, header, via, items, pre, post, .. } => {
                     let frame = push_header(env, *id, header, *via);
                     frame
                         .in_future(async move {
@@ -408,13 +422,14 @@ fn service(env: &Env, id: usize, items: &[PItem], pre: usize, end: usize) {
                     check(env, pre);
                     run_sync(env, items)
                 };
-                match text {
+                // the request handler may panic (planned): the server thread catches that and goes on
+                let _ = catch_planned(|| match text {
                     Some(text) => {
                         let incoming = Traceparent::try_from_str(&text).unwrap_or_else(|_| Traceparent::current());
                         incoming.push().call(body)
                     }
                     None => body(),
-                }
+                });
                 check(env, end);
             })
         })
@@ -455,7 +470,8 @@ fn hop(env: &Env, id: usize, carry: Carry, fut: bool, items: &[PItem], pre: usiz
                     }
                 };
                 // `fut`: the carried frames wrap a future that is driven on this thread (tokio::spawn style)
-                match (tp_frame, ctxt_frame, fut) {
+                // the body may panic (planned): this thread catches that and goes on
+                let _ = catch_planned(|| match (tp_frame, ctxt_frame, fut) {
                     (None, None, _) => inner_sync(),
                     (Some(t), None, false) => t.call(inner_sync),
                     (None, Some(c), false) => c.call(inner_sync),
@@ -463,7 +479,7 @@ fn hop(env: &Env, id: usize, carry: Carry, fut: bool, items: &[PItem], pre: usiz
                     (Some(t), None, true) => block_on(t.in_future(hop_future(env, id, before, items, pre))),
                     (None, Some(c), true) => block_on(c.in_future(hop_future(env, id, before, items, pre))),
                     (Some(t), Some(c), true) => block_on(t.in_future(c.in_future(hop_future(env, id, before, items, pre)))),
-                }
+                });
                 check(env, end);
             })
         })
